@@ -336,3 +336,7 @@ def run(ctx):
     r17_3(ctx)
     r17_4(ctx)
     r17_5(ctx)
+    # the reversed run reads the successor lists as predecessor lists: a dependency must be registered on both sides, however it was
+    # declared (C01's registration rule)
+    from .C01 import r1_5
+    r1_5(ctx)
